@@ -66,6 +66,7 @@ class AdversarialSource(object):
         self.by_thread = {}
         self.small = None
         self.inject = []        # values to hand out next, whatever the mode
+        self.pending_repeat = None
 
     def fresh(self):
         while True:
@@ -117,6 +118,16 @@ class AdversarialSource(object):
                 # hand out, again, values issued long ago (the first few of the process)
                 if len(self.history) > cfg.get("after", 64) and self.r.random() < cfg.get("p", 0.3):
                     v = self.history[self.r.randrange(min(8, len(self.history)))]
+            elif mode == "straddle":
+                # a value spelled by the tail of one issued identifier and the head of the next (what a
+                # search over a packed table finds at an unaligned offset); handed out, then handed out again
+                if self.pending_repeat is not None:
+                    v, self.pending_repeat = self.pending_repeat, None
+                elif len(self.history) >= 2 and self.r.random() < cfg.get("p", 0.7):
+                    i = self.r.randrange(len(self.history) - 1)
+                    k = self.r.randrange(1, 4)
+                    v = (self.history[i] + self.history[i + 1])[k:k + 4]
+                    self.pending_repeat = v
             elif mode == "boundary":
                 if self.r.random() < 0.5:
                     v = self.r.choice([b"\x00\x00\x00\x00", b"\xff\xff\xff\xff",
@@ -193,11 +204,28 @@ class C15(Check):
             threads = [[["bulk", n_bulk], ["gen"], ["typed", 0], ["gen"], ["typed", 1], ["gen"], ["gen"]]]
             mode = "replay_old"
             long_history = True
+        aged = (index % 10 == 7) and not long_history
+        if aged:
+            # a long process LIFE rather than a long history: a few requests, then minutes / hours / days of
+            # idleness (and perhaps a stepped wall clock), then the source replays the early values
+            pre = [rng.choice([["gen"], ["typed", rng.randrange(len(TYPED_REQUESTS))]]) for _ in range(rng.randint(2, 6))]
+            post = [rng.choice([["gen"], ["typed", rng.randrange(len(TYPED_REQUESTS))]]) for _ in range(rng.randint(3, 8))]
+            mid = [["idle", rng.choice([90.0, 241.0, 3700.0, 90000.0, 3.0e6])]]
+            if rng.random() < 0.4:
+                mid.append(["clock_step", rng.choice([-7200.0, 3600.0, 1.0e6])])
+            if rng.random() < 0.4:
+                mid.append(["gc"])
+            threads = [pre + mid + post]
+            mode = "replay_old"
+        elif index % 10 == 3 and not long_history:
+            mode = "straddle"
         src = {"mode": mode, "seed": rng.getrandbits(32), "k": rng.choice([2, 3, 4, 8]),
                "max_repeat": rng.choice([1, 2, 4, 8, 16]), "p": rng.choice([0.5, 0.8, 1.0]),
                "bits": rng.choice([8, 16, 20, 24])}
         if long_history:
             src.update({"after": threads[0][0][1] - 100, "p": 0.9, "max_repeat": 6})
+        if aged:
+            src.update({"after": 2 * (len(threads[0]) - len(post) - len(mid)) - 1, "p": 0.9, "max_repeat": 6})
         pol = rng.choice(["sync", "line", "line", "opcode", "opcode"])
         if long_history:
             pol = "sync"
@@ -250,7 +278,7 @@ class C15(Check):
         from bromelia.base import DiameterRequest, DiameterAnswer, DiameterHeader
         sched = scn["sched"]
         sim = Sim(random.Random(scn["seed"]), tape_in=tape_in, quantum=sched.get("quantum", 1e-6),
-                  max_steps=scn.get("max_steps", 1_500_000), horizon=1e6,
+                  max_steps=scn.get("max_steps", 1_500_000), horizon=1e8,
                   p_sync=sched["p_sync"], p_line=sched["p_line"],
                   opcode_funcs=ALLOC_FUNCS if sched.get("opcode") else (),
                   trace_root=bromelia_trace_root())
@@ -286,9 +314,21 @@ class C15(Check):
                         import gc
                         gc.collect()
                         continue
+                    if kind == "idle":
+                        sim.sleep(op[1])
+                        continue
+                    if kind == "clock_step":
+                        sim.step_wall_clock(op[1])
+                        continue
                     if kind == "bulk":
                         for _ in range(op[1]):
                             m = DiameterRequest()
+                            if expect_next:
+                                g = expect_next.pop(0)
+                                if (m.header.hop_by_hop, m.header.end_to_end) != g:
+                                    errors.append({"t": tid, "op": oi, "err": "RegistryAltered: identifiers carried by an explicit-header object "
+                                                   "were no longer issuable afterwards (offered %s/%s, request got %s/%s)" % (
+                                                       g[0].hex(), g[1].hex(), m.header.hop_by_hop.hex(), m.header.end_to_end.hex())})
                             created.append({"t": tid, "op": oi, "kind": "gen", "hbh": m.header.hop_by_hop,
                                             "e2e": m.header.end_to_end, "explicit": False, "given": None,
                                             "draws": 2, "step": sim.steps})
@@ -323,6 +363,11 @@ class C15(Check):
                         except BaseException as e:      # noqa -- the failure itself is expected
                             if type(e).__name__ in ("SimStop", "SimHang"):
                                 raise
+                        if expect_next and len(src.inject) != 2 * len(expect_next):
+                            # the failed construction drew (and thereby used up) identifiers this harness had
+                            # queued in the random source to probe "still issuable": the probe is void
+                            del src.inject[:]
+                            del expect_next[:]
                         if kind == "hdr_reuse_bad" and len(scn["threads"]) == 1:
                             reg1 = (len(DiameterRequest.hop_by_hop_identifiers), len(DiameterRequest.end_to_end_identifiers))
                             if reg1 != reg0 or prev[-1]["hbh"] not in DiameterRequest.hop_by_hop_identifiers or \
@@ -365,9 +410,10 @@ class C15(Check):
 
         def main(sim):
             ths = [sim.spawn(worker, i, ops, role="T%d" % i) for i, ops in enumerate(scn["threads"])]
+            idle_total = sum(op[1] for ops in scn["threads"] for op in ops if op[0] == "idle")
             for t in ths:
                 while t.state != "done" and not sim.halted:
-                    t.join(timeout=1.0)
+                    t.join(timeout=1.0 + idle_total)
             unfinished = [t.role for t in ths if t.state != "done"]
             if unfinished:
                 violations.append({"clause": "termination", "sig": "C15/termination",
